@@ -171,7 +171,7 @@ def opPropagate (j : Json) : R Json := do
       let mb := tB.getD 0 0 + tB.getD 1 0
       [tw, approx, 1 / (1 / mf + 1 / mb)]
     pure <| Json.mkObj [("fw", Json.arr ((Array.range 12).map (cubeJ fw))), ("bw", Json.arr ((Array.range 12).map (cubeJ bw))),
-                        ("w", Json.arr ((Array.range 22).map (cubeJ w))),
+                        ("w", Json.arr ((Array.range 25).map (cubeJ w))),
                         ("tmpw", cubeJ extra 0), ("approx", cubeJ extra 1), ("lower", cubeJ extra 2)]
   else
     let JF := fun i t => derivsFw (tmpf inp p i t + inp.c273) g (st.at i t) (ast.at i t)
